@@ -17,8 +17,9 @@ One Lean function per Go function, one branch per Go branch, over `JV`:
   descends into `v0`, an absent member being `nil`).
 
 The deviations of the unchanged code from property C19 are carried explicitly, one flag each
-(`Dev`): `Dev.current` is the code as it is, `Dev.fixed` the code with the proposed fixes of
-`notes/proposed_fixes/C19_*.md`. -/
+(`Dev`): `Dev.pinned` is the code as it was pinned, `Dev.fixed` the code with the fixes of
+`notes/proposed_fixes/C19_*.md`, `Dev.current` the code as it is now (all four are applied, so it
+equals `Dev.fixed`; the flags stay so that a scratch tree without a fix can still be modelled). -/
 namespace OjgVerif.Diff
 open OjgVerif
 
@@ -37,7 +38,12 @@ structure Dev where
   genRoot : Bool
   deriving DecidableEq, Repr
 
-def Dev.current : Dev := ⟨false, true, false, false⟩   -- fixed in /repo: lastIndex (c0c8224), tailSkip (2f372fe), genRoot (36b721b)
+/-- the code as it is now: every deviation is repaired in the repository — lastIndex (c0c8224),
+tailSkip (2f372fe), genRoot (36b721b), floatRound (23c2317). `Props/C19.lean` proves that the
+deviation set read off the regenerated source facts (`Gen/AltDiff.lean`) is this one. -/
+def Dev.current : Dev := ⟨false, false, false, false⟩
+/-- the pinned code (d4b55cf), before the four repairs -/
+def Dev.pinned : Dev := ⟨true, true, true, true⟩
 def Dev.fixed : Dev := ⟨false, false, false, false⟩
 
 /-! ## asInt, asFloat -/
